@@ -294,7 +294,7 @@ func recencyHistory(r *lib.Run, pool *lib.DirPool, i int, seed uint64, backend b
 		ci.History = h.hist
 		for k := 0; k < 3; k++ {
 			qq := queryPaths[(k+i)%3]
-			kind, _ := w.judge(in, ci, qq, jsonAccept)
+			kind, _ := w.judge(in, ci, qq, jsonAccept, inlineVariant(i/4+k))
 			r.Distinct(w.cfg, "recency", qq, sh.label, "evicted:"+gone, kind)
 		}
 		return
@@ -312,7 +312,8 @@ func recencyHistory(r *lib.Run, pool *lib.DirPool, i int, seed uint64, backend b
 		}
 	}
 	ci.History = h.hist
-	kind, expHit := w.judge(in, ci, q, jsonAccept)
+	// (a plain lookup: inlining on request reads, and for backend-only files stores, blobs during the hit)
+	kind, expHit := w.judge(in, ci, q, jsonAccept, inlineReq{})
 	h.log("t=%d AC lookup via %s -> %s", h.clock+1, q, kind)
 	if kind != "hit" || !expHit {
 		// an earlier upload already evicted something referenced (or the answer was wrong and has been reported)
@@ -321,7 +322,10 @@ func recencyHistory(r *lib.Run, pool *lib.DirPool, i int, seed uint64, backend b
 	}
 	post := h.snap()
 	if ev := disappeared(pre, post, ""); len(ev) > 0 {
-		r.Violation("C06:recency:lookup-evicts:"+w.beLabel(), fmt.Sprintf("entries disappeared while an AC hit was served via %s: %v", q, ev), detail(map[string]any{"disappeared": ev}))
+		// A hit may legally store (de-inlining, a backend fetch) and thereby
+		// evict: not forbidden by the statement. The use-time model does not
+		// cover it, so the history ends here as an observation.
+		r.Count("recency.lookup-evicted-entries." + w.beLabel())
 		return
 	}
 	h.clock++
@@ -330,6 +334,7 @@ func recencyHistory(r *lib.Run, pool *lib.DirPool, i int, seed uint64, backend b
 		h.ts[k] = tHit
 	}
 	r.Count("recency.hit." + w.beLabel() + "." + q)
+	r.Count("recency.hit." + w.beLabel())
 
 	// 5. pressure: one block at a time; never more evictions than there are unreferenced entries older than the hit
 	older := 0
@@ -420,7 +425,7 @@ func recencyHistory(r *lib.Run, pool *lib.DirPool, i int, seed uint64, backend b
 	// 6. everything referenced survived: another path must still answer a hit
 	ci.History = h.hist
 	q2 := queryPaths[(i/4+1)%3]
-	k2, _ := w.judge(in, ci, q2, !jsonAccept)
+	k2, _ := w.judge(in, ci, q2, !jsonAccept, inlineVariant(i/4))
 	r.Distinct(w.cfg, "recency", q2, sh.label, "after-pressure", k2)
 	if i < 2 {
 		r.Sample(map[string]any{"case": id, "config": w.cfg, "max_size": max, "shape": sh.label, "hit_via": q, "history": h.hist})
